@@ -9,6 +9,9 @@ CONSTANTS
   PoolN = 4
   Depth3 = FALSE
   M_ShiftOnce = FALSE
+  M_ContainsAnyRunes = TRUE
+  UChars = {1, 40, 41}
+  UMaxData = 1
   PartsOn = {"N"}
   D_FoldWidth = TRUE
   D_ContainerNul = TRUE
